@@ -49,6 +49,8 @@ type Runner struct {
 	// engine cannot continue from there (Tendermint rejects an empty validator set),
 	// so histories end at that point.
 	Halted bool
+	// TimeFn, when set, replaces NextTime as the source of block times.
+	TimeFn func(t *rapid.T) time.Time
 	// Rec, when set, records every executed request as replayable data.
 	Rec *Scenario
 
@@ -198,8 +200,12 @@ func (r *Runner) Block(t *rapid.T) bool {
 		return true
 	}
 	h := n.LastHeight + 1
-	req := BlockReq{Height: h, Time: r.NextTime(t), Votes: r.NextVotes(t), Evidence: r.NextEvidence(t)}
-	r.logf("BeginBlock h=%d t=%s votes=%s ev=%d", h, req.Time.Format("15:04:05"), voteString(req.Votes), len(req.Evidence))
+	tm := r.NextTime
+	if r.TimeFn != nil {
+		tm = r.TimeFn
+	}
+	req := BlockReq{Height: h, Time: tm(t), Votes: r.NextVotes(t), Evidence: r.NextEvidence(t)}
+	r.logf("BeginBlock h=%d t=%s votes=%s ev=%d", h, req.Time.Format("01-02 15:04:05"), voteString(req.Votes), len(req.Evidence))
 	if n.WouldHalt(req) {
 		// a passing halt vote makes the node exit the process: the history ends here
 		r.Halted = true
